@@ -113,10 +113,30 @@ def worker(case: Dict[str, Any]) -> CaseResult:
     sdl, frs, ops, names, feats, schema_ref = built
     feats = set(cw.case_features(case, feats))
     rng = random.Random(case["seed"] * 19 + case["idx"])
-    scalars = sorted(n for n, t in schema_ref.type_map.items() if isinstance(t, GraphQLScalarType) and n not in oracles.BUILTIN)
+    uploads = False
+    if case.get("upload") and "Upload" not in schema_ref.type_map:
+        # one custom scalar becomes the bundled Upload: calls carrying a file travel as multipart, where the other scalars' values must be
+        # serialised exactly as on the JSON route
+        import re as _re
+
+        from graphql import build_schema
+        customs = sorted(n for n, t in schema_ref.type_map.items() if isinstance(t, GraphQLScalarType) and n not in oracles.BUILTIN)
+        if len(customs) >= 2:
+            pat = _re.compile(r"\b%s\b" % _re.escape(customs[-1]))
+            sdl = pat.sub("Upload", sdl)
+            frs = [pat.sub("Upload", x) for x in frs]
+            ops = [pat.sub("Upload", x) for x in ops]
+            schema_ref = build_schema(sdl)
+    uploads = "Upload" in schema_ref.type_map
+    if uploads:
+        feats.add("scalar.upload")
+    scalars = sorted(n for n, t in schema_ref.type_map.items() if isinstance(t, GraphQLScalarType) and n not in oracles.BUILTIN and n != "Upload")
     if not scalars:
         return CaseResult("inconclusive", note="schema without custom scalars", stats={"no_custom_scalars": 1})
     variant_of = {n: VARIANTS[(case["idx"] + i) % len(VARIANTS)] for i, n in enumerate(scalars)}
+    if uploads and case["idx"] % 8 == 2:
+        # pydantic-native values next to files: the multipart route has to serialise them like the JSON route does
+        variant_of = {n: "native_datetime" for n in scalars}
     index_of = {n: i for i, n in enumerate(scalars)}
     csm = CSM_HEADER + "".join(CSM_PER_SCALAR.format(i=i) for i in range(len(scalars)))
     cfg_full = {k: v for k, v in case["cfg"].items() if not k.startswith("_")}
@@ -153,6 +173,10 @@ def worker(case: Dict[str, Any]) -> CaseResult:
         count("generated")
 
         def in_python(name: str, token: Any) -> Any:
+            if name == "Upload" and isinstance(token, str) and token.startswith("upload-tok#"):
+                import io
+                up_cls = getattr(sys.modules[pkg.__name__ + ".base_model"], "Upload")
+                return up_cls(filename=token.replace("#", "_") + ".txt", content=io.BytesIO(token.encode()), content_type="text/x-vf")
             v = variant_of.get(name)
             i = index_of.get(name)
             if v in ("both", "deprecated_import"):
@@ -200,6 +224,8 @@ def worker(case: Dict[str, Any]) -> CaseResult:
             return lambda n: "%s#%d" % (name, n)
 
         tokens = {n: token_gen(n) for n in scalars}
+        if uploads:
+            tokens["Upload"] = lambda n: "upload-tok#%d" % n
         scalar_expect = {n: out_expect(n) for n in scalars}
         server = RefServer(schema_ref)
         client, is_async = make_client(pkg, cfg, server)
@@ -359,6 +385,10 @@ def run(tier: str, seed: int) -> int:
     r.floors = {"responses_checked": 200, "parse_calls_expected": 200, "serialize_calls_expected": 100}
     n = 1200 if tier == "thorough" else 170
     cases = [cw.make_case(seed, i, dirty=["schema.force_scalar"], tier=tier) for i in range(n)]
+    for i, c in enumerate(cases):
+        if i % 4 == 2:
+            c["upload"] = True
+            c["size"] = "l"
 
     def on_result(case, res):
         r.add(case, res)
